@@ -85,6 +85,93 @@ def _one(s: object, what: str) -> int:
     return ord(s)
 
 
+def _regex_items(pat: str) -> list[list[tuple[str, str]]]:
+    """Tokenise the body of a pattern built by choice.build_optimized_pattern into alternatives of items
+    ('lit', ch) | ('cls', text) | ('prop', text). Fail-closed on anything else."""
+    alts: list[list[tuple[str, str]]] = [[]]
+    i, n = 0, len(pat)
+    while i < n:
+        ch = pat[i]
+        if ch == "|":
+            alts.append([])
+            i += 1
+        elif ch == "\\":
+            if i + 1 >= n:
+                raise ExportError(f"regex {pat!r}: trailing backslash")
+            nx = pat[i + 1]
+            if nx in "pP":
+                j = pat.find("}", i)
+                if i + 2 >= n or pat[i + 2] != "{" or j < 0:
+                    raise ExportError(f"regex {pat!r}: property syntax")
+                alts[-1].append(("prop", pat[i:j + 1]))
+                i = j + 1
+            elif nx.isalnum():
+                raise ExportError(f"regex {pat!r}: escape \\{nx}")
+            else:
+                alts[-1].append(("lit", nx))
+                i += 2
+        elif ch == "[":
+            j = i + 1
+            while j < n and pat[j] != "]":
+                j += 2 if pat[j] == "\\" else 1
+            if j >= n:
+                raise ExportError(f"regex {pat!r}: unterminated class")
+            alts[-1].append(("cls", pat[i:j + 1]))
+            i = j + 1
+        elif ch in "()*+?{}^$.":
+            raise ExportError(f"regex {pat!r}: operator {ch!r} at {i}")
+        else:
+            alts[-1].append(("lit", ch))
+            i += 1
+    return alts
+
+
+def _regex_alt(pat: str, star: bool) -> str:
+    """Denotation of the regex an OptimizedChoice compiles, as an ordered choice of terminals (read from the
+    compiled pattern text, not from `choices`): literal -> str, ASCII-case-insensitive literal -> ci, one class or
+    property -> cls. Nothing follows the group in the pattern, so first-match alternation = PEG ordered choice."""
+    body = pat
+    if star:
+        if not body.endswith("*"):
+            raise ExportError(f"regex {pat!r}: repeat without *")
+        body = body[:-1]
+    if body.startswith("(?:") and body.endswith(")"):
+        body = body[3:-1]
+    elif star and body:
+        raise ExportError(f"regex {pat!r}: repeat without group")
+    out = []
+    if body == "(?!)" or body == "":
+        alts = []
+    else:
+        alts = _regex_items(body)
+    for items in alts:
+        if not items:
+            raise ExportError(f"regex {pat!r}: empty alternative")
+        kinds = {k for k, _ in items}
+        if kinds == {"lit"}:
+            out.append("(str " + " ".join(str(ord(c)) for _, c in items) + ")")
+        elif len(items) == 1:
+            out.append(_class_ranges(items[0][1]))
+        elif kinds <= {"lit", "cls"}:
+            cps = []
+            for k, t in items:
+                if k == "lit":
+                    if t.isascii() and t.isalpha():
+                        raise ExportError(f"regex {pat!r}: case-sensitive letter inside an insensitive literal")
+                    cps.append(ord(t))
+                else:
+                    inner = t[1:-1]
+                    if len(inner) != 2 or not inner.isascii() or not inner.isalpha() or inner[0].lower() != inner[1].lower() \
+                            or inner[0] == inner[1]:
+                        raise ExportError(f"regex {pat!r}: class {t!r} inside a literal")
+                    cps.append(ord(inner[0].lower()))
+            out.append("(ci " + " ".join(map(str, cps)) + ")")
+        else:
+            raise ExportError(f"regex {pat!r}: alternative {items!r}")
+    alt = "(alt" + "".join(" " + o for o in out) + ")"
+    return f"(star {alt})" if star else alt
+
+
 class Exporter:
     def __init__(self, rules: dict, syms: Symbols | None = None) -> None:
         self.rules = rules
@@ -181,6 +268,10 @@ class Exporter:
             a = "_" if e.start is None else str(int(e.start))
             b = "_" if e.stop is None else str(int(e.stop))
             return f"(peeksl {a} {b})"
+        if ty is _choice.OptimizedChoice:
+            return _regex_alt(e.pattern.pattern, star=False)
+        if ty is _choice.OptimizedChoiceRepeat:
+            return _regex_alt(e.pattern.pattern, star=True)
         if ty is _t.SkipUntil:
             return "(skipuntil" + "".join(f" ({_cps(s)})" for s in e.subs) + ")"
         raise ExportError(f"unknown expression class {ty.__module__}.{ty.__name__}")
@@ -198,6 +289,10 @@ class Exporter:
         if len(kinds) > 1:
             raise ExportError(f"modifier {m!r} of {name!r}")
         kind = kinds[0] if kinds else 0
+        if silent and kind in (2, 3):
+            # hypothesis of InterpProof.iparse_refines_one_modifier / GenProof: a silent rule is not $ or !
+            # (the grammar syntax allows one modifier per rule, so the front end never builds one)
+            raise ExportError(f"silent rule {name!r} with a $ or ! modifier: outside the proved domain")
         if r.name != name:
             raise ExportError(f"rule {name!r} carries name {r.name!r}")
         return f"(rule {self.syms.rule(name)} {silent} {kind} {self.expr(r.expression)})"
